@@ -30,25 +30,22 @@ def Log.append (p : WalParams) (crc : Bytes → Nat) (l : Log) (op : Nat) (key v
     let e : Entry := { op, seq := l.next, key, val }
     (.ok l.next, { (l.write (encodeEntry p crc e)) with next := l.next + 1 })
 
-/-- the record loop of AppendBatch: FULL records all carrying `seq`; stops at the first entry whose payload
-    exceeds the record limit (the records before it have already been handed to the buffer). -/
-def batchBytes (p : WalParams) (crc : Bytes → Nat) (seq : Nat) : List (Nat × Bytes × Bytes) → Bytes × Bool
-  | [] => ([], true)
+/-- the record loop of AppendBatch: FULL records all carrying `seq`. -/
+def batchBytes (p : WalParams) (crc : Bytes → Nat) (seq : Nat) : List (Nat × Bytes × Bytes) → Bytes
+  | [] => []
   | (op, k, v) :: rest =>
-    let e : Entry := { op, seq, key := k, val := v }
-    if payloadSize p e > p.maxRecord then ([], false)
-    else
-      let (bs, ok) := batchBytes p crc seq rest
-      (record crc p.tFull (payload p e) ++ bs, ok)
+    record crc p.tFull (payload p { op, seq, key := k, val := v }) ++ batchBytes p crc seq rest
 
-/-- WAL.AppendBatch -/
+/-- the size pass of AppendBatch: every entry must fit one record, checked before anything is buffered. -/
+def batchFits (p : WalParams) (seq : Nat) (es : List (Nat × Bytes × Bytes)) : Bool :=
+  es.all (fun (op, k, v) => payloadSize p { op, seq, key := k, val := v } ≤ p.maxRecord)
+
+/-- WAL.AppendBatch: a batch with an oversized entry is rejected as a whole and leaves the log untouched. -/
 def Log.batch (p : WalParams) (crc : Bytes → Nat) (l : Log) (es : List (Nat × Bytes × Bytes)) : Except WErr Nat × Log :=
   if es.isEmpty then (.ok l.next, l)
   else if l.next ≥ p.maxSeq then (.error .overflow, l)
-  else
-    let (bs, ok) := batchBytes p crc l.next es
-    if ok then (.ok l.next, { (l.write bs) with next := l.next + 1 })
-    else (.error .tooLarge, l.write bs)
+  else if !batchFits p l.next es then (.error .tooLarge, l)
+  else (.ok l.next, { (l.write (batchBytes p crc l.next es)) with next := l.next + 1 })
 
 /-- rotation as performed by the storage manager: a new empty file, counter handed over. -/
 def Log.rotate (l : Log) : Log := { l with files := l.files ++ [[]] }
